@@ -255,7 +255,13 @@ def r4_whole_ranks(ctx):
         del ctx.obs[n0:]
         run_fallback(ctx, _r4_whole_ranks_shape, e, "candidate ranking")
         return
-    _r4_whole_ranks_shape(ctx)
+    # the interpretation decided the law; the shape rule adds a second, construct-level report where it recognises the
+    # collections (a table built some other way - set(map(..)) - is not an error of the analysis)
+    n1 = len(ctx.obs)
+    try:
+        _r4_whole_ranks_shape(ctx)
+    except AnalysisError:
+        del ctx.obs[n1:]
 
 
 def _r4_whole_ranks_shape(ctx):
